@@ -45,6 +45,13 @@ pub fn get_memory_region(
         .checked_add(size)
         .context_code(EVM_CONTRACT_ILLEGAL_MEMORY_ACCESS, "new memory size exceeds max u32")?;
 
+    #[cfg(fil_verif)]
+    if crate::interpreter::verif::over_memory_cap(new_size as u64) {
+        return Err(ActorError::unchecked(
+            crate::interpreter::verif::EXIT_STEP_BUDGET,
+            "fil_verif: memory cap exceeded".into(),
+        ));
+    }
     mem.grow(new_size as usize);
 
     Ok(Some(MemoryRegion {
